@@ -212,9 +212,9 @@ impl Mp4Track {
             // no time base: the duration is not expressible
             return Duration::default();
         }
-        Duration::from_micros(
-            self.trak.mdia.mdhd.duration * 1_000_000 / self.trak.mdia.mdhd.timescale as u64,
-        )
+        let micros = self.trak.mdia.mdhd.duration as u128 * 1_000_000
+            / self.trak.mdia.mdhd.timescale as u128;
+        Duration::from_micros(u64::try_from(micros).unwrap_or(u64::MAX))
     }
 
     pub fn bitrate(&self) -> u32 {
